@@ -227,11 +227,24 @@ func (h *vfRedisHook) ProcessHook(next goredis.ProcessHook) goredis.ProcessHook 
 			case vfRFCorrupt:
 				if len(val) > 0 {
 					b := []byte(val)
-					b[f.Arg%len(b)] ^= byte(1 << uint(f.Arg%8))
+					pos := f.Arg
+					if pos < 0 {
+						pos += len(b)
+					}
+					if pos < 0 {
+						pos = 0
+					}
+					b[pos%len(b)] ^= byte(1 << uint(pos%8))
 					sc.SetVal(string(b))
 				}
 			case vfRFTruncate:
 				n := f.Arg
+				if n < 0 {
+					n += len(val)
+				}
+				if n < 0 {
+					n = 0
+				}
 				if n > len(val) {
 					n = len(val)
 				}
